@@ -2,7 +2,7 @@
    it returned. prop_ok judges the observation by the definitions in Spec.v (kind 2); model_ok compares it with
    the transcribed models (kind 1), including count and rolling hash of the less(x, y) call sequence for the
    sorts that take a less function. *)
-From VF Require Import C10.Model C10.SortModel C10.Spec.
+From VF Require Import C10.Model C10.SortModel C10.Spec C10.CmpSel.
 From Coq Require Import QArith Qabs.
 Local Open Scope Z_scope.
 
@@ -30,6 +30,11 @@ Inductive call :=
 | KCmpStr (ordered rev : bool) (a b : list Z)         (* OrderedComparator[string] or StringComparator *)
 | KCmpBool (rev : bool) (a b : bool)
 | KCmpFloat (f32 : bool) (ma ea mb eb mt et : Z)      (* operands and tolerance as m * 2^e *)
+| KCompareFuncSel (c : cmpsel) (s2 : list Z)           (* CompareFunc with a comparison of shape c; calls recorded *)
+| KEqualFuncSel (p : predsel) (s2 : list Z)            (* EqualFunc with a (possibly asymmetric) predicate; calls recorded *)
+| KBinarySearchFuncSel (c : cmpsel) (target : Z)
+| KReverseSel (c : cmpsel) (a b : Z)                   (* ReverseComparator(shape c)(a, b) *)
+| KSortCmp (c : cmpsel)                                (* the comparator-taking sorts with a comparator of shape c *)
 | KDiffOrdered (same : bool).                         (* zsortordered.go == zsortfunc.go up to `less` *)
 
 Inductive obs :=
@@ -37,6 +42,8 @@ Inductive obs :=
 | OInt (v : Z)
 | OBool (b : bool)
 | OPos (i : Z) (found : bool)
+| OIntCalls (v : Z) (calls : list (Z * Z))     (* result and the (first argument, second argument) of every call of the user function *)
+| OBoolCalls (b : bool) (calls : list (Z * Z))
 | ONone
 | OPanic.
 
@@ -50,6 +57,13 @@ Definition index_ok_b (s : list Z) (v r : Z) : bool :=
   if r =? -1 then negb (existsb (Z.eqb v) s)
   else (0 <=? r) && (r <? Z.of_nat (length s)) && (nth (Z.to_nat r) s 0 =? v)
        && negb (existsb (Z.eqb v) (firstn (Z.to_nat r) s)).
+
+Definition pair_eqb (p q : Z * Z) : bool := (fst p =? fst q) && (snd p =? snd q).
+Definition calls_eqb := list_eqb pair_eqb.
+(* every recorded call is on some (s1[i], s2[i]), first argument from s1 *)
+Definition calls_oriented (xs s2 : list Z) (calls : list (Z * Z)) : bool :=
+  forallb (fun p => existsb (pair_eqb p) (combine xs s2)) calls.
+Definition less_of_cmp (c : cmpsel) (a b : Z) : bool := zcmp_of c a b <? 0.
 
 Definition in3 (r : Z) : bool := (r =? -1) || (r =? 0) || (r =? 1).
 Definition flip (rev : bool) (r : Z) : Z := if rev then - r else r.
@@ -85,6 +99,14 @@ Definition prop_ok (c : case) : bool :=
   | KCmpFloat _ ma ea mb eb mt et, OInt r =>
       let d := (dy ma ea - dy mb eb)%Q in
       in3 r && (if Qltb (dy mt et) (Qabs d) then r =? qsgn d else true)
+  | KCompareFuncSel c s2, OIntCalls r calls => (r =? spec_compare_func (zcmp_of c) xs s2) && calls_oriented xs s2 calls
+  | KEqualFuncSel p s2, OBoolCalls b calls => Bool.eqb b (spec_equal_func (pred_of p) xs s2) && calls_oriented xs s2 calls
+  | KBinarySearchFuncSel c t, OPos i f =>
+      if sorted_adj_b (less_of_cmp c) xs
+      then (i =? count_while (fun e => zcmp_of c e t <? 0) xs) && Bool.eqb f (existsb (fun e => zcmp_of c e t =? 0) xs)
+      else true
+  | KReverseSel c a b, OInt r => r =? - zcmp_of c a b
+  | KSortCmp c, OList ys _ _ => sorted_perm_b (less_of_cmp c) xs ys
   | KDiffOrdered _, ONone => true
   | _, _ => false
   end.
@@ -123,6 +145,13 @@ Definition model_ok (c : case) : bool :=
       if Qltb (Qabs d) (t / 2)%Q then r =? 0
       else if Qltb t (Qabs d) then r =? qsgn d
       else (r =? 0) || (r =? qsgn d)
+  | KCompareFuncSel c s2, OIntCalls r calls =>
+      let '(r', calls') := compare_func_tr (zcmp_of c) xs s2 in (r =? r') && calls_eqb calls calls'
+  | KEqualFuncSel p s2, OBoolCalls b calls =>
+      let '(b', calls') := equal_func_tr (pred_of p) xs s2 in Bool.eqb b b' && calls_eqb calls calls'
+  | KBinarySearchFuncSel c t, OPos i f => let '(i', f') := binary_search_func (zcmp_of c) xs t in (i =? i') && Bool.eqb f f'
+  | KReverseSel c a b, OInt r => r =? reverse_cmp (zcmp_of c) a b
+  | KSortCmp _, OList _ _ _ => true                                      (* stdlib sort.Sort: output checker only *)
   | KDiffOrdered same, ONone => same
   | _, _ => false
   end.
